@@ -653,10 +653,108 @@ def case_merge_plan(ctx, inp):
     ctx.eq("Merge._lower: plan (Lean MergePlan.lower vs the lowered expression)", want, real)
     ctx.branch("merge_plan-%s-%s-%s" % (model[0], how, kind))
 
+
+# ---------------------------------------------------------------------------------------------------------------------
+# joint / history / source purity: several differently parameterised results of the SAME frames in one graph, repeated
+# calls in one process, inputs unchanged
+# ---------------------------------------------------------------------------------------------------------------------
+
+def _shared_key_conflicts(graphs):
+    """keys present in two graphs of differently parameterised expressions must carry equal tasks (the uuid-named inner
+    keys of the disk shuffle are rebuilt per graph: its outer keys are skipped)"""
+    from dask.base import tokenize
+    out = []
+    for a in range(len(graphs)):
+        for b in range(a + 1, len(graphs)):
+            for k in set(graphs[a]) & set(graphs[b]):
+                name = k[0] if isinstance(k, tuple) else k
+                if isinstance(name, str) and name.startswith(("diskshuffle-", "zpartd-", "barrier-")):
+                    continue
+                if tokenize(graphs[a][k]) != tokenize(graphs[b][k]):
+                    out.append(str(k)[:80])
+    return out
+
+
+def case_joint(ctx, inp):
+    import dask
+    import pandas as pd
+    dd = U.dd()
+    left, right = _frames(inp)
+    lcopy, rcopy = left.copy(deep=True), right.copy(deep=True)
+    dl = U.frame_from_cuts(left, inp["lcuts"])
+    dr = U.frame_from_cuts(right, inp["rcuts"])
+    kind = inp["kind"]
+
+    def build(v):
+        if kind == "merge":
+            kw = {k: v[k] for k in ("broadcast", "npartitions") if v.get(k) is not None}
+            if v.get("method"):
+                kw["shuffle_method"] = v["method"]
+            return dl.merge(dr, on="k", how=v["how"], **kw)
+        if kind == "concat":
+            return dd.concat([dl, dr.rename(columns={"rv": "lv"})], join=v["join"], interleave_partitions=v.get("interleave", False))
+        ls = dd.from_pandas(left.sort_values("k", kind="stable").reset_index(drop=True), npartitions=v["nl"])
+        rs = dd.from_pandas(right.sort_values("k", kind="stable").reset_index(drop=True), npartitions=v["nr"])
+        return dd.merge_asof(ls, rs, on="k", direction=v["direction"])
+
+    def ref(v):
+        if kind == "merge":
+            if v["how"] == "leftsemi":
+                return left[left.k.isin(set(right.k))]
+            return left.merge(right, on="k", how=v["how"])
+        if kind == "concat":
+            return pd.concat([left, right.rename(columns={"rv": "lv"})], join=v["join"])
+        return pd.merge_asof(left.sort_values("k", kind="stable").reset_index(drop=True),
+                             right.sort_values("k", kind="stable").reset_index(drop=True), on="k", direction=v["direction"])
+    variants = inp["variants"]
+    try:
+        with dask.config.set(scheduler="sync"):
+            exprs = [build(v) for v in variants]
+            graphs = [dict(e.__dask_graph__()) for e in exprs]
+            solo = [build(v).compute() for v in variants]
+            joint = dask.compute(*exprs)
+            again = build(variants[0])                       # history: the first call once more, after all the others
+            again_parts = U.partitions(again)
+            same_cols = [i for i, r in enumerate(solo) if list(r.columns) == list(solo[0].columns)]
+            stacked = dd.concat([exprs[i] for i in same_cols]).compute() if len(same_cols) > 1 else None
+            pl = dl.persist()
+            before = [p.copy(deep=True) for p in U.partitions(pl)]
+            build(variants[-1])                               # a fresh expression next to a persisted input
+            pl.merge(dr, on="k", how="inner").compute() if kind == "merge" else pl.k.sum().compute()
+            after = U.partitions(pl)
+    except Exception as e:  # noqa: BLE001
+        ctx.fail(f"joint evaluation ({kind}) raised: " + U.exc_name(e), observed=U.exc_name(e))
+        return
+    for i, v in enumerate(variants):
+        exp = ref(v)
+        cols = list(exp.columns)
+        e = _rows(exp, cols)
+        if sorted(solo[i].columns) != sorted(cols) or _rows(solo[i], cols) != e:
+            ctx.fail(f"{kind} {v} differs from pandas", observed=_rows(solo[i], cols)[:20], expected=e[:20])
+        elif _rows(joint[i], cols) != e:
+            ctx.fail(f"{kind} {v} evaluated together with {len(variants) - 1} differently parameterised results of the same frames "
+                     "differs from its solo result", observed=_rows(joint[i], cols)[:20], expected=e[:20])
+    cols0 = list(solo[0].columns)
+    if _rows(pd.concat(again_parts) if again_parts else solo[0].iloc[:0], cols0) != _rows(solo[0], cols0):
+        ctx.fail(f"{kind}: the first call repeated after other calls in the same process gives other partitions", observed=len(again_parts))
+    if stacked is not None:
+        want = _rows(pd.concat([solo[i] for i in same_cols]), cols0)
+        if _rows(stacked, cols0) != want:
+            ctx.fail(f"{kind}: concat of differently parameterised results of the same frames differs from the stacked solo results",
+                     observed=len(stacked), expected=len(want))
+    bad = _shared_key_conflicts(graphs)
+    if bad:
+        ctx.fail(f"{kind}: graphs of differently parameterised expressions share keys with different tasks", observed=bad[:5])
+    if not left.equals(lcopy) or not right.equals(rcopy):
+        ctx.fail(f"{kind}: the pandas inputs were modified by a compute", observed=[left.equals(lcopy), right.equals(rcopy)])
+    if len(before) != len(after) or any(not a.equals(b) for a, b in zip(before, after)):
+        ctx.fail(f"{kind}: persisted partitions changed after a compute that used them")
+    ctx.branch("joint-%s-%d-variants" % (kind, len(variants)))
+
 CASES = {"merge": case_merge, "join": case_join, "concat": case_concat, "asof": case_asof, "chain": case_chain,
          "index_bcast": case_index_bcast, "pair_partitions": case_pair_partitions, "asof_spec": case_asof_spec,
          "asof_pads": case_asof_pads, "asof_plan": case_asof_plan,
-         "index_join_plan": case_index_join_plan, "interleave_plan": case_interleave_plan, "merge_plan": case_merge_plan}
+         "index_join_plan": case_index_join_plan, "interleave_plan": case_interleave_plan, "merge_plan": case_merge_plan, "joint": case_joint}
 
 
 def _keys(rng, n, hi, na):
@@ -856,6 +954,46 @@ def _gen_merge_plan(ctx):
                             yield "merge_plan", {"nl": nl, "nr": nr, "how": how, "broadcast": b, "npartitions": None, "kind": kind}
 
 
+def _cuts_at_least(rng, n, k, maxparts):
+    for _ in range(20):
+        c = U.rand_cuts(rng, n, maxparts=max(maxparts, k))
+        if len(c) - 1 >= k:
+            return c
+    return [0] + [n * (i + 1) // k for i in range(k)]
+
+
+def _gen_joint(ctx):
+    rng = ctx.rng
+    for _ in range(ctx.n(24, 240)):
+        nl, nr = rng.randint(4, 16), rng.randint(3, 14)
+        hi = rng.choice([3, 6, 12])
+        kind = rng.choice(["merge", "merge", "merge", "concat", "asof"])
+        if kind == "merge":
+            variants = [{"how": rng.choice(["inner", "left", "right", "outer", "leftsemi"]), "broadcast": rng.choice([None, True, False]),
+                         "npartitions": rng.choice([None, None, 2, 5]), "method": rng.choice([None, "tasks", "disk"])}
+                        for _ in range(rng.randint(2, 3))]
+            if rng.random() < 0.5:                            # same `how`, only npartitions / broadcast / method differ
+                for v in variants[1:]:
+                    v["how"] = variants[0]["how"]
+            t = rng.random()
+            if t < 0.25:                                      # the same broadcast plan with different `how`
+                variants = [{"how": "inner", "broadcast": True}, {"how": rng.choice(["left", "right", "leftsemi"]), "broadcast": True},
+                            {"how": "inner", "broadcast": False}]
+            elif t < 0.4:                                     # the same hash join into different numbers of partitions
+                h = rng.choice(["left", "inner", "outer"])
+                variants = [{"how": h, "broadcast": False}, {"how": h, "broadcast": False, "npartitions": 2},
+                            {"how": h, "broadcast": False, "npartitions": 5}]
+        elif kind == "concat":
+            variants = [{"join": "outer", "interleave": False}, {"join": "inner", "interleave": False}, {"join": "outer", "interleave": True}]
+        else:
+            variants = [{"direction": d, "nl": rng.randint(1, 3), "nr": rng.randint(1, 3)} for d in rng.sample(["backward", "forward", "nearest"], 2)]
+            variants.append({"direction": variants[0]["direction"], "nl": rng.randint(1, 4), "nr": rng.randint(1, 4)})
+        yield "joint", {"lk": _keys(rng, nl, hi, False), "rk": _keys(rng, nr, hi, False), "na": False,
+                        "lcuts": _cuts_at_least(rng, nl, 2 if kind == "merge" else 1, rng.choice([3, 5])),
+                        "rcuts": _cuts_at_least(rng, nr, 2 if kind == "merge" else 1, rng.choice([2, 4])),
+                        "kind": kind, "variants": variants}
+
+
 def _interleave(streams):
     """round-robin over the generator streams, so that a deadline cuts all of them proportionally"""
     its = [iter(x) for x in streams]
@@ -872,4 +1010,4 @@ def _interleave(streams):
 
 def generate(ctx):
     yield from _interleave([_gen_pairs(ctx), _gen_api(ctx), _gen_asof_spec(ctx), _gen_asof_plan(ctx), _gen_align(ctx), _gen_merge_plan(ctx),
-                            _gen_asof_pads(ctx)])
+                            _gen_asof_pads(ctx), _gen_joint(ctx)])
